@@ -178,6 +178,11 @@ structure SState where
   depth : Int
   deriving DecidableEq, Repr, Inhabited
 
+/-- `return attrib(kind, data, pos, namespaces, variables) or None` (fixes ef611bc for
+    SimplePathStrategy, 996160a for SingleStepStrategy) -/
+def attrResult (a : NodeTest) (e : Event) (ns : NsMap) : Val :=
+  if (a.apply e ns).truthy then a.apply e ns else .none
+
 def sSteps (p : LocPath) : List Step :=
   match p with
   | s0 :: _ => if s0.axis == .attribute then dotSlash :: p else p
@@ -208,7 +213,7 @@ def sStep (steps : List Step) (ic : Bool) (ns : NsMap) (vs : Vars) (st : SState)
         let (ok, counters) := sPreds e ns vs s0.preds 0 st.counters
         let st := { st with counters := counters }
         if !ok then (st, .none)
-        else if sl.axis == .attribute then (st, sl.test.apply e ns)
+        else if sl.axis == .attribute then (st, attrResult sl.test e ns)
         else (st, .bool true)
     | _, _ => (st, .none)
 
@@ -382,7 +387,7 @@ def pStep (frags? : Option (List Frag)) (ignoreContext : Bool) (ns : NsMap) (st 
           else st
         if fid + 1 == fl && p == fragLen then
           match attrib with
-          | some a => (st', a.apply e ns)
+          | some a => (st', attrResult a e ns)
           | none => (st', .bool true)
         else (st', .none)
 
@@ -392,10 +397,12 @@ def simpleSupports (p : LocPath) : Bool :=
   match p with
   | [] => false      -- `path[0]` raises
   | s0 :: _ =>
-    s0.axis != .attribute && p.all fun s =>
+    s0.axis != .attribute && (p.all fun s =>
       s.preds.isEmpty && (match s.test with
         | .localName _ _ | .comment | .text => true
-        | _ => false)
+        | _ => false)) &&
+    -- `for step in path[:-1]: if step[0] is ATTRIBUTE: return False` (fix e131362)
+    p.dropLast.all fun s => s.axis != .attribute
 
 def singleSupports (p : LocPath) : Bool := p.length == 1
 
